@@ -7,3 +7,258 @@ CONTRACTS = []
 REFUTED_ON_THE_UNCHANGED_TREE = []      # not loaded: genuine violations of the property (see the notes of each entry)
 CLASS_SPECS = {}
 LEMMAS = []
+
+M = 'pywbem_mock/_mainprovider.py::MainProvider.'
+S = 'pywbem_mock/_inmemoryrepository.py::'
+
+CLASS_SPECS.update({
+    'CIMInstanceName': {'namespace': Opt(Str), 'classname': Str, 'host': Opt(Str)},
+    'CIMInstance': {'classname': Str, 'path': Ref('CIMInstanceName'), 'properties': Ref('NocaseDict')},
+    'CIMProperty': {'type': Str, 'name': Str, 'value': Ref('CIMInstanceName')},
+})
+MAIN = Obj('MainProvider', cimrepository=Obj('InMemoryRepository'))
+CSTORE = Obj('InMemoryObjectStore', _data=MapOf('str', ('ref', 'CIMClass')))
+ISTORE = Obj('InMemoryObjectStore')
+
+get_cstore = Contract(S + 'InMemoryRepository.get_class_store', returns_ghost='g_cstore', trusted=True,
+                      notes='the class store of the namespace (dictionary lookup; the namespace exists)')
+get_istore = Contract(S + 'InMemoryRepository.get_instance_store', returns=ISTORE, trusted=True,
+                      notes='the instance store of the namespace (dictionary lookup; the namespace exists)')
+cls_exists = Contract(S + 'InMemoryObjectStore.object_exists', returns=Bool,
+                      ensures=[('membership', 'result == (name in self._data)')], notes='proved under C10 (no write)')
+iter_insts = Contract(S + 'InMemoryObjectStore.iter_values', returns_ghost='g_insts', trusted=True,
+                      notes='the stored instances, each once (no write)')
+validate_cls = Contract(M + '_validate_class_exists',
+                        raises={'CIMError': Raises(post=[('code', 'exc.status_code == CIM_ERR_INVALID_PARAMETER')])},
+                        notes='the class exists in the namespace or CIM_ERR_INVALID_PARAMETER; proved below')
+SUB_FIRST = ('the-list-starts-with-the-class-itself', 'implies(classname, len(result) >= 1 and result[0] == classname.lower())')
+sub_lc = Contract(M + '_subclasses_lc', returns_ghost='g_sub', trusted=True, ensures=[SUB_FIRST],
+                  notes='documented: "a list of this class and its subclasses in lower case" ([] for no class); reads the class '
+                        'store only.  The subclass relation itself is C12')
+
+# ---- helper: the class test of the References / Associators requests
+CONTRACTS.append(Contract(
+    M + '_validate_class_exists',
+    params={'self': MAIN, 'namespace': Str, 'cln': Str, 'req_param': Str},
+    ghosts={'g_cstore': CSTORE},
+    callees={'get_class_store': get_cstore, 'InMemoryObjectStore.object_exists': cls_exists},
+    ensures=[('returns-only-for-an-existing-class', 'cln in g_cstore._data')],
+    raises={'CIMError': Raises(post=[('always-INVALID_PARAMETER', 'exc.status_code == CIM_ERR_INVALID_PARAMETER'),
+                                     ('only-for-a-missing-class', 'cln not in g_cstore._data')])},
+))
+
+# ======================================================================== 1. _get_reference_instnames
+# the DECISION for one examined (stored instance, property) pair, over the caller's filters as given (g_rc / g_role: the
+# parameters result_class / role at entry; g_sub: what _subclasses_lc returned for result_class)
+REF_COND = ("(prop.type == 'reference' and prop.value == instname "
+            "and (not g_rc or inst.classname.lower() in g_sub) "
+            "and (not g_role or prop.name.lower() == g_role.lower()))")
+ALL_PROPS = ('every-property-of-an-examined-instance-was-examined', 'implies(_i > 0, _i2 == len(inst.properties.values()))')
+# Soundness of the result WITHOUT a quantifier over it: g_w is an arbitrary path (a symbolic constant the code never sees);
+# g_wjust is set only by the ghost code behind the add statement, and only when the value added equals g_w AND the decision
+# condition holds for the pair just examined.  "g_w in the result implies g_wjust", for an arbitrary g_w, says that every
+# member of the result was put there for a pair that satisfies the condition - whatever statement changes the set.
+WITNESS = ('whatever-is-in-the-result-was-put-there-for-a-matching-reference', 'implies(g_w in rtn_instpaths, g_wjust)')
+GHOST_TYPES = {'g_ok': Bool, 'g_wjust': Bool}
+PATH_FRAME = '{p}.classname == old({p}.classname) and {p}.host == old({p}.host)'
+
+CONTRACTS.append(Contract(
+    M + '_get_reference_instnames',
+    params={'self': MAIN, 'namespace': Str, 'instname': Ref('CIMInstanceName'), 'result_class': Opt(Str), 'role': Opt(Str)},
+    ghosts={'g_cstore': CSTORE, 'g_sub': ListOf('str'), 'g_insts': ListOf(('ref', 'CIMInstance')), 'g_w': Ref('CIMInstanceName')},
+    # (_i1 / _i2: the engine's iteration counters of loop 1 / loop 2; given a value before the loops are reached)
+    ghost_init={'g_rc': 'result_class', 'g_role': 'role', 'g_ok': 'True', 'g_wjust': 'False', '_i1': '0', '_i2': '0'},
+    ghost_code={'rtn_instpaths.add(inst.path)': f'g_ok = g_ok and {REF_COND}\ng_wjust = g_wjust or (inst.path == g_w and {REF_COND})'},
+    kinds={'rtn_instpaths': 'absval', 'nocasedict.values': ('ref', 'CIMProperty')},
+    callees={'get_class_store': get_cstore, 'get_instance_store': get_istore, 'InMemoryObjectStore.object_exists': cls_exists,
+             'iter_values': iter_insts, '_validate_class_exists': validate_cls, '_subclasses_lc': sub_lc},
+    loops={1: LoopSpec(target='inst', types={'inst': Ref('CIMInstance'), 'prop': Ref('CIMProperty'), **GHOST_TYPES},
+                       modifies=['rtn_instpaths'],
+                       invariant=[('a-path-is-added-only-for-a-matching-reference', 'g_ok'), WITNESS, ALL_PROPS]),
+           2: LoopSpec(target='prop', types={'prop': Ref('CIMProperty'), **GHOST_TYPES}, modifies=['rtn_instpaths'],
+                       invariant=[('a-path-is-added-only-for-a-matching-reference', 'g_ok'), WITNESS,
+                                  ('a-matching-reference-puts-the-path-of-its-instance-into-the-result',
+                                   f'implies(_i > 0 and {REF_COND}, inst.path in rtn_instpaths)')])},
+    ensures=[('a-path-was-added-only-for-a-matching-reference', 'g_ok'),
+             ('whatever-is-in-the-result-was-put-there-for-a-matching-reference', 'implies(g_w in result, g_wjust)'),
+             ('every-stored-instance-was-examined', '_i1 == len(g_insts)'),
+             ('the-class-filter-list-is-the-subtree-of-result_class', 'implies(result_class, g_sub[0] == result_class.lower())'),
+             ('result-is-a-new-set', 'fresh(result)'),
+             ('the-only-write-to-the-callers-path-is-its-namespace',
+              'instname.namespace == namespace and ' + PATH_FRAME.format(p='instname'))],
+    raises={'CIMError': Raises(post=[('always-INVALID_PARAMETER', 'exc.status_code == CIM_ERR_INVALID_PARAMETER'),
+                                     ('a-refused-call-leaves-the-callers-path-alone',
+                                      'instname.namespace == old(instname.namespace) and ' + PATH_FRAME.format(p='instname'))])},
+))
+
+# ======================================================================== 2. _get_associated_instancenames
+# The association instances examined are what _get_reference_instnames (contract 1) returned for the caller's source path,
+# AssocClass as its result class and Role as its role; the set it returns is enumerated as a list (each member once).
+ref_names = Contract(
+    M + '_get_reference_instnames', returns_ghost='g_refs',
+    requires=[('the-search-is-for-the-callers-source-path', 'instname is caller_inst_name'),
+              ('same-namespace', 'namespace == caller_namespace'),
+              ('AssocClass-is-handed-on-as-the-class-filter-of-the-reference-search', 'result_class == caller_assoc_class'),
+              ('Role-is-handed-on-as-the-role-filter-of-the-reference-search',
+               'implies(not caller_role, not role) and implies(caller_role, role == caller_role.lower())'),
+              ('the-source-path-already-names-the-namespace', 'instname.namespace == namespace')],
+    raises={'CIMError': Raises(post=[('code', 'exc.status_code == CIM_ERR_INVALID_PARAMETER')])},
+    notes='proved above (contract 1): the paths of the stored instances with a reference to the source that passes the '
+          'filters; CIM_ERR_INVALID_PARAMETER; its only write (instname.namespace = namespace) repeats the caller\'s own')
+sub_lc2 = Contract(M + '_subclasses_lc', returns=ListOf('str'), trusted=True, ensures=[SUB_FIRST], notes=sub_lc.notes)
+get_cstore2 = Contract(S + 'InMemoryRepository.get_class_store', returns=Obj('InMemoryObjectStore'), trusted=True,
+                       notes=get_cstore.notes)
+bare_inst = Contract('pywbem_mock/_baseprovider.py::BaseProvider._get_bare_instance', returns=Ref('CIMInstance'), trusted=True,
+                     ensures=[('the-instance-stored-under-that-path', 'result.path == instance_name')],
+                     notes='the stored instance of that path (no copy, no write); SHAPE: found - the path was returned by the '
+                           'search over the same store in the same call (None for a missing path is not on any path here)')
+WITNESS2 = ('whatever-is-in-the-result-was-put-there-for-a-matching-other-reference', WITNESS[1])
+ASSOC_COND = ("(prop.type == 'reference' and prop.value != inst_name "
+              "and (not g_rc or prop.value.classname.lower() in g_rsub) "
+              "and (not g_rrole or prop.name.lower() == g_rrole.lower()))")
+
+# (an exhaustive case split on the two filters that are only handed on - AssocClass and Role given or not - keeps the
+# number of paths per contract small; the four cases run in parallel and together cover every argument combination)
+ASSOC_CASES = {'no AssocClass, no Role': ['not assoc_class', 'not role'], 'AssocClass, no Role': ['assoc_class', 'not role'],
+               'no AssocClass, Role': ['not assoc_class', 'role'], 'AssocClass and Role': ['assoc_class', 'role']}
+for _label, _req in ASSOC_CASES.items():
+  CONTRACTS.append(Contract(
+    M + '_get_associated_instancenames', label=_label, requires=_req,
+    params={'self': MAIN, 'namespace': Str, 'inst_name': Ref('CIMInstanceName'), 'assoc_class': Opt(Str),
+            'result_class': Opt(Str), 'result_role': Opt(Str), 'role': Opt(Str)},
+    ghosts={'g_refs': ListOf(('ref', 'CIMInstanceName')), 'g_w': Ref('CIMInstanceName')},
+    ghost_init={'g_rc': 'result_class', 'g_rrole': 'result_role', 'g_ok': 'True', 'g_wjust': 'False', 'g_rsub': '[]',
+                '_i1': '0', '_i2': '0'},
+    ghost_code={'rtn_instpaths.add(prop.value)': f'g_ok = g_ok and {ASSOC_COND}\ng_wjust = g_wjust or (prop.value == g_w and {ASSOC_COND})',
+                'result_classes = self._subclasses_lc(result_class, class_store)': 'g_rsub = result_classes'},
+    kinds={'rtn_instpaths': 'absval', 'nocasedict.values': ('ref', 'CIMProperty'), 'g_rsub': 'str'},
+    callees={'get_class_store': get_cstore2, 'get_instance_store': get_istore, '_validate_class_exists': validate_cls,
+             '_subclasses_lc': sub_lc2, '_get_reference_instnames': ref_names, '_get_bare_instance': bare_inst},
+    loops={1: LoopSpec(target='ref_path',
+                       types={'ref_path': Ref('CIMInstanceName'), 'inst': Ref('CIMInstance'), 'prop': Ref('CIMProperty'),
+                              **GHOST_TYPES},
+                       modifies=['rtn_instpaths'],
+                       invariant=[('a-far-end-is-added-only-for-a-matching-other-reference', 'g_ok'), WITNESS2, ALL_PROPS]),
+           2: LoopSpec(target='prop', types={'prop': Ref('CIMProperty'), **GHOST_TYPES}, modifies=['rtn_instpaths'],
+                       invariant=[('a-far-end-is-added-only-for-a-matching-other-reference', 'g_ok'), WITNESS2,
+                                  ('a-matching-other-reference-puts-its-far-end-into-the-result',
+                                   f'implies(_i > 0 and {ASSOC_COND}, prop.value in rtn_instpaths)')])},
+    ensures=[('a-far-end-was-added-only-for-a-matching-other-reference', 'g_ok'),
+             ('whatever-is-in-the-result-was-put-there-for-a-matching-other-reference', 'implies(g_w in result, g_wjust)'),
+             ('every-association-instance-found-was-examined', '_i1 == len(g_refs)'),
+             ('the-class-filter-list-is-the-subtree-of-result_class', 'implies(result_class, g_rsub[0] == result_class.lower())'),
+             ('result-is-a-new-set', 'fresh(result)'),
+             ('the-only-write-to-the-callers-path-is-its-namespace',
+              'inst_name.namespace == namespace and ' + PATH_FRAME.format(p='inst_name'))],
+    raises={'CIMError': Raises(post=[('always-INVALID_PARAMETER', 'exc.status_code == CIM_ERR_INVALID_PARAMETER')])},
+))
+
+# ======================================================================== 3. the operations: the caller's filters reach the helpers
+# Instance level and class level: ReferenceNames / AssociatorNames hand namespace, object and every filter UNCHANGED (and in
+# the right positions) to the traversal helper - the same helper, with the same arguments, that References / Associators use;
+# the names returned are one (copied) path per member of the helper's result.
+B = 'pywbem_mock/_baseprovider.py::BaseProvider.'
+validate_ns = Contract(B + 'validate_namespace', trusted=True,
+                       raises={'CIMError': Raises(post=[('code', 'exc.status_code == CIM_ERR_INVALID_NAMESPACE')])},
+                       notes='the namespace exists or CIM_ERR_INVALID_NAMESPACE (a dictionary lookup in the repository)')
+validate_inst_ns = Contract(M + '_validate_instancename_namespace', trusted=True,
+                            requires=[('the-callers-path', 'object_name is caller_ObjectName'), ('same-namespace', 'namespace == caller_namespace')],
+                            raises={'CIMError': Raises(post=[('code', 'exc.status_code == CIM_ERR_INVALID_PARAMETER')])},
+                            notes='sets a missing namespace of the path / CIM_ERR_INVALID_PARAMETER for a different one')
+path_copy = Contract('pywbem/_cim_obj.py::CIMInstanceName.copy', returns=Ref('CIMInstanceName'), trusted=True,
+                     ensures=[('a-new-equal-path', 'fresh(result) and result == self and result.namespace == self.namespace '
+                               'and result.host == self.host')], notes='documented: a copy of the path')
+HANDED_ON = [('same-namespace', 'namespace == caller_namespace')]
+refs_inst = Contract(M + '_get_reference_instnames', returns_ghost='g_paths',
+                     requires=HANDED_ON + [('the-callers-path', 'instname is caller_ObjectName'),
+                                           ('ResultClass-unchanged', 'result_class == caller_ResultClass'),
+                                           ('Role-unchanged', 'role == caller_Role')],
+                     raises=ref_names.raises, notes='proved above (contract 1); the set it returns is enumerated as a list')
+refs_cls = Contract(M + '_get_reference_classnames', returns=ListOf('str'), trusted=True,
+                    requires=HANDED_ON + [('the-callers-class-name', 'classname == caller_ObjectName'),
+                                          ('ResultClass-unchanged', 'result_class == caller_ResultClass'),
+                                          ('Role-unchanged', 'role == caller_Role')],
+                    raises=ref_names.raises, notes='class-level traversal (filter predicates: C13.py; membership: bounded)')
+assocs_inst = Contract(M + '_get_associated_instancenames', returns_ghost='g_paths',
+                       requires=HANDED_ON + [('the-callers-path', 'inst_name is caller_ObjectName'),
+                                             ('AssocClass-unchanged', 'assoc_class == caller_AssocClass'),
+                                             ('ResultClass-unchanged', 'result_class == caller_ResultClass'),
+                                             ('ResultRole-unchanged', 'result_role == caller_ResultRole'),
+                                             ('Role-unchanged', 'role == caller_Role')],
+                       raises=ref_names.raises, notes='proved above (contract 2); the set it returns is enumerated as a list')
+assocs_cls = Contract(M + '_get_associated_classnames', returns=ListOf('str'), trusted=True,
+                      requires=HANDED_ON + [('the-callers-class-name', 'classname == caller_ObjectName')] + assocs_inst.requires[2:],
+                      raises=ref_names.raises, notes=refs_cls.notes)
+MAINH = Obj('MainProvider', cimrepository=Obj('InMemoryRepository'), host=Str)
+OP_RAISES = {'CIMError': Raises(post=[('documented-status-codes',
+                                       'exc.status_code in (CIM_ERR_INVALID_NAMESPACE, CIM_ERR_INVALID_PARAMETER)')])}
+HOST_LOOP = LoopSpec(target='iname', types={'iname': Ref('CIMInstanceName')}, modifies=['$fields:CIMInstanceName.host'])
+NAMES_POST = [('one-name-per-member-of-the-helper-result',
+               'implies(isinstance(ObjectName, CIMInstanceName), len(result) == len(g_paths))'),
+              ('the-names-are-new-objects-not-the-stored-paths', 'fresh(result)')]
+CONTRACTS.append(Contract(
+    M + 'ReferenceNames',
+    params={'self': MAINH, 'namespace': Str, 'ObjectName': Union(Str, Ref('CIMInstanceName')), 'ResultClass': Opt(Str),
+            'Role': Opt(Str)},
+    ghosts={'g_paths': ListOf(('ref', 'CIMInstanceName'))},
+    callees={'validate_namespace': validate_ns, '_validate_instancename_namespace': validate_inst_ns,
+             '_get_reference_instnames': refs_inst, '_get_reference_classnames': refs_cls, 'copy': path_copy},
+    opaque=['CIMClassName'], loops={1: HOST_LOOP}, ensures=NAMES_POST, raises=OP_RAISES))
+CONTRACTS.append(Contract(
+    M + 'AssociatorNames',
+    params={'self': MAINH, 'namespace': Str, 'ObjectName': Union(Str, Ref('CIMInstanceName')), 'AssocClass': Opt(Str),
+            'ResultClass': Opt(Str), 'Role': Opt(Str), 'ResultRole': Opt(Str)},
+    ghosts={'g_paths': ListOf(('ref', 'CIMInstanceName'))},
+    callees={'validate_namespace': validate_ns, '_validate_instancename_namespace': validate_inst_ns,
+             '_get_associated_instancenames': assocs_inst, '_get_associated_classnames': assocs_cls, 'copy': path_copy},
+    opaque=['CIMClassName'], loops={1: HOST_LOOP}, ensures=NAMES_POST, raises=OP_RAISES))
+
+# ---- the FULL operations use the same helper with the same arguments, and build one object per member of its result from
+# the instance stored under exactly that path (so that Names == the paths of what the full operation returns, member by member)
+get_inst = Contract(M + '_get_instance', returns=Ref('CIMInstance'), trusted=True,
+                    requires=[('retrieved-without-the-LocalOnly-filter', 'local_only == INSTANCE_RETRIEVE_LOCAL_ONLY'),
+                              ('the-callers-IncludeQualifiers', 'include_qualifiers == caller_IncludeQualifiers'),
+                              ('the-callers-IncludeClassOrigin', 'include_class_origin == caller_IncludeClassOrigin'),
+                              ('the-callers-PropertyList', 'property_list is caller_PropertyList')],
+                    ensures=[('a-copy-of-the-instance-stored-under-that-path', 'fresh(result) and result.path == instance_name')],
+                    raises={'CIMError': Raises(post=[('code', 'exc.status_code == CIM_ERR_NOT_FOUND')])},
+                    notes='documented: a copy of the stored instance of that path, filtered by the property list; '
+                          'CIM_ERR_NOT_FOUND for a path that is not in the store (known finding: dangling ends)')
+class_tuples = Contract(M + '_return_assoc_class_tuples', returns=ListOf('ref'), trusted=True,
+                        requires=HANDED_ON,
+                        raises={'CIMError': Raises()}, notes='builds (CIMClassName, CIMClass) tuples for the class names found')
+# SHAPE: IncludeQualifiers / IncludeClassOrigin are given (True or False) and PropertyList is a list object - the three are
+# only handed on to _get_instance; their None alternatives multiply the paths through the isinstance assertions by eight
+FULL = {'IncludeQualifiers': Bool, 'IncludeClassOrigin': Bool, 'PropertyList': Ref('list')}
+FULL_RAISES = {'CIMError': Raises(post=[('documented-status-codes',
+                                         'exc.status_code in (CIM_ERR_INVALID_NAMESPACE, CIM_ERR_INVALID_PARAMETER, CIM_ERR_NOT_FOUND) or '
+                                         'not isinstance(ObjectName, CIMInstanceName)')])}
+CONTRACTS.append(Contract(
+    M + 'Associators',
+    params={'self': MAINH, 'namespace': Str, 'ObjectName': Union(Str, Ref('CIMInstanceName')), 'AssocClass': Opt(Str),
+            'ResultClass': Opt(Str), 'Role': Opt(Str), 'ResultRole': Opt(Str), **FULL},
+    ghosts={'g_paths': ListOf(('ref', 'CIMInstanceName'))},
+    kinds={'results': ('ref', 'CIMInstance')},
+    callees={'validate_namespace': validate_ns, '_validate_instancename_namespace': validate_inst_ns,
+             '_get_associated_instancenames': assocs_inst, '_get_associated_classnames': assocs_cls,
+             'get_instance_store': get_istore, '_get_instance': get_inst, '_return_assoc_class_tuples': class_tuples},
+    loops={1: LoopSpec(target='obj_name', types={'obj_name': Ref('CIMInstanceName'), 'ns': Opt(Str), 'instance_store': ISTORE},
+                       modifies=['results'],
+                       invariant=[('one-instance-per-path-so-far', 'len(results) == _i'),
+                                  ('the-last-instance-is-the-one-stored-under-the-last-path',
+                                   'implies(_i > 0, results[_i - 1].path == g_paths[_i - 1])')])},
+    ensures=[('one-instance-per-member-of-the-helper-result',
+              'implies(isinstance(ObjectName, CIMInstanceName), len(result) == len(g_paths))')],
+    raises=FULL_RAISES))
+CONTRACTS.append(Contract(
+    M + 'References',
+    params={'self': MAINH, 'namespace': Str, 'ObjectName': Union(Str, Ref('CIMInstanceName')), 'ResultClass': Opt(Str),
+            'Role': Opt(Str), **FULL},
+    ghosts={'g_paths': ListOf(('ref', 'CIMInstanceName'))},
+    callees={'validate_namespace': validate_ns, '_validate_instancename_namespace': validate_inst_ns,
+             '_get_reference_instnames': refs_inst, '_get_reference_classnames': refs_cls,
+             'get_instance_store': get_istore, '_get_instance': get_inst, '_return_assoc_class_tuples': class_tuples},
+    loops={1: LoopSpec(target='inst', types={'inst': Ref('CIMInstance')}, modifies=['$fields:CIMInstanceName.host'])},
+    ensures=[('one-instance-per-member-of-the-helper-result',
+              'implies(isinstance(ObjectName, CIMInstanceName), len(result) == len(g_paths))')],
+    raises=FULL_RAISES))
